@@ -71,9 +71,20 @@ func Run(c *vf.Check) {
 			jobs = append(jobs, func() { runRing(c, rs, n) })
 		}
 	}
+	// signing objects used over several calls
+	od := 3
+	if c.Thorough() {
+		od = 4
+	}
+	for _, gn := range []string{"ed25519", "p256"} {
+		gn := gn
+		jobs = append(jobs, func() { runSchnorrObject(c, gn, od) })
+	}
+	jobs = append(jobs, func() { runEdDSAObject(c, od+1) })
 	vf.Parallel(len(jobs), func(i int) { jobs[i]() })
 	c.Finish("engine E: Schnorr on the 17 group instances with an implicit generator: keys {1,q-1,r1,r2} x message lengths {0,1,31,32,33,64,65,4096}: honest signature verifies; every single-bit flip of the signature and of the key encoding (all bits for the first key/two messages, one bit per byte elsewhere), of the message (<=65 bytes), +-1 byte -> rejected unless the mutated encoding decodes to the same (R, S mod q, key). "+
 		"Ed25519 (schnorr.VerifyWithChecks and eddsa.VerifyWithChecks): S+k*l for all k with S+k*l < 2^256; every (A,R) pair from 14 encodings of the 8 small-order points (canonical, non-canonical y>=p, sign-bit variants) with S in {0, and S making the equation hold} x 8 messages -> rejected. "+
+		"Signing objects over several calls (engine S, no merging): every sequence of depth <= 3 (thorough 4) over {Scheme.Sign with caller scalar K for message a / b, with another scalar K2, K updated in place (+1, Set, Pick), NewKeyPair, verify everything held} on a schnorr.NewScheme value (Ed25519, P-256), and of depth <= 4 (thorough 5) over {Sign a/b/c, load key 1/2, MarshalBinary+UnmarshalBinary, verify everything held} on one eddsa.EdDSA value: every signature handed out is kept and judged at the end - unchanged since it was returned, valid under the key of that moment, EdDSA byte-identical to crypto/ed25519. "+
 		"EdDSA vs crypto/ed25519: 64 seeds x 12 message lengths: identical public key and signature bytes; for every mutant: kyber accepts => crypto/ed25519 accepts. Ring signatures (Ed25519, P-256, bn256.G1): ring sizes 1..8 on Ed25519, 1..5 on the others (thorough 1..8) x every signer x scopes {nil, empty, a, b} x 2 messages: verifies; tag relations over all pairs; every 32/64-byte component replaced or bit-flipped, message/ring member/scope replaced -> error. "+
 		"non-trivial = mutated inputs that still decode; distinct by (scheme, group, key, message length, mutation)",
 		[]string{"a mutated signature verifying by chance (2^-250) is ignored", "signing randomness is a seeded stream per case (deterministic replay)"}, nil)
